@@ -116,8 +116,9 @@ int32_t jls_track_repair_pointers(struct jls_core_track_s * track) {
             offset_descend_next = 0;
             if (JLS_TRACK_TYPE_FSR == track->track_type) {
                 struct jls_fsr_index_s * r = (struct jls_fsr_index_s *) core->buf->start;
-                if (r->header.entry_count > 0) {
-                    offset_descend_next = r->offsets[r->header.entry_count - 1];
+                // entries of omitted blocks are 0: descend to the last block that was stored
+                for (uint32_t k = r->header.entry_count; (k > 0) && !offset_descend_next; --k) {
+                    offset_descend_next = r->offsets[k - 1];
                 }
             } else {
                 struct jls_index_s * r = (struct jls_index_s *) core->buf->start;
